@@ -18,6 +18,7 @@ let parse_op (keys : n list array) (s : string) : cop =
   | "J" -> OTryInsert (key 1)
   | "R" -> ORemove (key 1)
   | "X" -> ORemoveIndex (nat_of_int (num 1))
+  | "Y" -> ORemoveAt (key 1)
   | "N" -> ORename (key 1, key 2)
   | "Z" -> OResize (nat_of_int (num 1))
   | "E" -> OExpect (nat_of_int (num 1))
